@@ -459,7 +459,7 @@ impl Scenario for IoFaults {
         "io_faults"
     }
     fn runs(&self, tier: Tier) -> u64 {
-        tier.pick(1300, 60_000)
+        tier.pick(13_000, 60_000)
     }
     fn generate(&self, g: &mut Gen, _t: Tier, idx: u64) -> Value {
         let (fmt, elts) = FMTS[(idx % FMTS.len() as u64) as usize];
@@ -568,7 +568,7 @@ impl Scenario for RealDisk {
         "real_disk_paths"
     }
     fn runs(&self, tier: Tier) -> u64 {
-        tier.pick(30, 300)
+        tier.pick(60, 300)
     }
     fn generate(&self, g: &mut Gen, _t: Tier, idx: u64) -> Value {
         let (fmt, elts) = FMTS[(idx % FMTS.len() as u64) as usize];
